@@ -6,6 +6,7 @@
 -/
 import Driver.Util
 import Saltpack.Model.Stream
+import Saltpack.Model.Classify
 
 open Saltpack
 
@@ -80,8 +81,41 @@ def traceCR (caps : List Nat) : (fuel : Nat) → Nat → CRState Source → List
       let (d2, e2, _) := crRead scriptNext cap (s1.chunker.length + 3) s1 []
       (s!"{toHex d2}:{showRErr e2}" :: tr').reverse
 
+def showVer (v : Version) : String := s!"{v.major}.{v.minor}"
+
 def handle (toks : List String) : Option String :=
   match toks with
+  | ["cl.bin", h] =>
+    match ofHex h with
+    | some b =>
+      match Classify.binarySlice b with
+      | .ok (t, v) => some s!"ok {t} {showVer v}"
+      | .short => some "short"
+      | .eof => some "eof"
+      | .notSaltpack => some "not"
+      | .unmodelled w => some s!"unmodelled {w.replace " " "_"}"
+    | none => none
+  | ["cl.arm", h] =>
+    match ofHex h with
+    | some b =>
+      match Classify.armoredPrefix b with
+      | .ok (br, t, v) => some s!"ok {toHex br} {t} {showVer v}"
+      | .short => some "short"
+      | .eof => some "eof"
+      | .notSaltpack => some "not"
+      | .unmodelled w => some s!"unmodelled {w.replace " " "_"}"
+    | none => none
+  | ["cl.stream", size, h] =>
+    match size.toNat?, ofHex h with
+    | some size, some b =>
+      let sz := if size < 16 then 16 else size
+      match Classify.classifyStream sz b with
+      | .ok (arm, br, t, v) => some s!"ok armored={arm} {toHex br} {t} {showVer v} remaining={b.length}"
+      | .short => some s!"short remaining={b.length}"
+      | .eof => some s!"eof remaining={b.length}"
+      | .notSaltpack => some s!"not remaining={b.length}"
+      | .unmodelled w => some s!"unmodelled {w.replace " " "_"}"
+    | _, _ => none
   | ["st.dec", expect, caps, script] =>
     match parseExpect expect, parseCaps caps, parseScript script with
     | some ex, some caps, some src =>
